@@ -6,6 +6,7 @@ import (
 	"errors"
 	"fmt"
 	"math"
+	"math/rand"
 	"runtime"
 	"sort"
 	"sync"
@@ -427,6 +428,58 @@ func streamReg(o opts) {
 // ------------------------------------------------------------------ callbacks (C20)
 const sidCb = 20
 
+// cbRejected (C20): a SetWithCallback whose write TinyLFU declines stores nothing and must schedule nothing, even with a
+// TTL so short that the deadline has passed before the call returns (real clock; monitor only).
+func cbRejected(m *meta, r *rand.Rand, round int) {
+	kioshun.VerifSetClock(false, 0)
+	ctx := fmt.Sprintf("callback scenario rejected-candidate round %d", round)
+	c, err := kioshun.New[int, int](kioshun.Config{MaxSize: 32, ShardCount: 1, EvictionPolicy: kioshun.SieveTinyLFU, StatsEnabled: true})
+	must(err)
+	watch(ctx)
+	defer unwatch()
+	for k := 0; k < 32; k++ {
+		c.Set(k, k, kioshun.NoExpiration)
+	}
+	for rep := 0; rep < 8; rep++ {
+		for k := 0; k < 32; k++ {
+			c.Get(k)
+		}
+	}
+	c.Set(0, 0, kioshun.NoExpiration) // a write replays the sampled reads into the sketch
+	var mu sync.Mutex
+	fired := map[int]int{}
+	rejected := map[int]bool{}
+	for key := 1000; key < 1400; key++ {
+		before := c.PolicyStats()
+		if e := c.SetWithCallback(key, key, time.Nanosecond, func(k, _ int) { mu.Lock(); fired[k]++; mu.Unlock() }); e != nil {
+			continue
+		}
+		after := c.PolicyStats()
+		if after.Rejects == before.Rejects+1 && after.Admits == before.Admits {
+			rejected[key] = true
+		}
+	}
+	time.Sleep(60 * time.Millisecond)
+	mu.Lock()
+	bad := 0
+	for k := range fired {
+		if rejected[k] {
+			bad++
+		}
+	}
+	mu.Unlock()
+	if bad > 0 {
+		m.violate("C20", fmt.Sprintf("%s: %d SetWithCallback calls were declined by admission (nothing stored), yet their callbacks ran", ctx, bad), ctx)
+	}
+	if len(rejected) > 0 {
+		m.nontrivial(fmt.Sprintf("rejected/%d", min(len(rejected)/50, 8)))
+	} else {
+		m.count("cb_rejected_none")
+	}
+	c.Close()
+	m.count("scenario_rejected")
+}
+
 func streamCb(o opts) {
 	r := newRand(o.seed, "cb")
 	m := newMeta("cb", o.seed)
@@ -447,6 +500,10 @@ func streamCb(o opts) {
 	for round := 0; round < o.n; round++ {
 		pol := pick(r, []kioshun.EvictionPolicy{kioshun.LRU, kioshun.LFU, kioshun.FIFO, kioshun.SieveTinyLFU})
 		kind := round % 20
+		if kind == 19 {
+			cbRejected(m, r, round)
+			continue
+		}
 		if kind > 14 {
 			kind = 14 // random sequences
 		}
